@@ -210,6 +210,9 @@ type RTReq struct {
 	Method  string  `json:"method"`
 	Headers []Field `json:"headers,omitempty"`
 	Alt     bool    `json:"alt,omitempty"` // the request path is /plain/alt (a PAC script may decide on it)
+	// InnerHost (C06, kind mitm): the request inside the intercepted session names another site in its Host field
+	// ("B" = b.test:<its port>) than the CONNECT that opened the session
+	InnerHost string `json:"inner_host,omitempty"`
 }
 
 type RTCase struct {
@@ -426,6 +429,9 @@ func genRTReqs(t *rapid.T, withCreds bool, mitm bool) []RTReq {
 			if mitm && r.Kind == "connect" {
 				r.Kind = "http" // with MITM on, a CONNECT is intercepted, not an opaque tunnel
 			}
+		}
+		if withCreds && r.Kind == "mitm" && rapid.IntRange(0, 2).Draw(t, "innerhost") == 0 {
+			r.InnerHost = "B"
 		}
 		if withCreds {
 			switch rapid.IntRange(0, 6).Draw(t, "pa") {
@@ -729,7 +735,12 @@ func (e *rtEnv) rtExchange(px *ProxyInst, r RTReq, vid string) rtObs {
 			if err := t.Handshake(); err != nil {
 				o.err = fmt.Errorf("MITM handshake: %w", err)
 			} else {
-				fmt.Fprintf(t, "%s %s HTTP/1.1\r\nHost: %s\r\nX-Vid: %s\r\n%s\r\n%s", r.Method, path, host, vid, hdr, body)
+				innerHost := host
+				if r.InnerHost != "" {
+					h2, o2 := e.hostOf(r.InnerHost)
+					innerHost = net.JoinHostPort(h2, o2.Port)
+				}
+				fmt.Fprintf(t, "%s %s HTTP/1.1\r\nHost: %s\r\nX-Vid: %s\r\n%s\r\n%s", r.Method, path, innerHost, vid, hdr, body)
 				m2, err := ReadResponse(bufio.NewReader(t), r.Method)
 				if err != nil {
 					o.err = err
